@@ -477,6 +477,14 @@ impl<'a, C: Crypto + 'a> CaseP<'a, C> {
         icac: Option<&CertRef>,
         tmp_buf: &mut [u8],
     ) -> Result<(), Error> {
+        // The peer must present a NOC: the chain verifier applies the CA usage
+        // policy to a CA certificate wherever it stands in the chain (so that a
+        // root can be validated on its own), hence it would let an ICAC/RCAC
+        // through in the leaf position.
+        if !noc.is_noc()? {
+            Err(ErrorCode::Invalid)?;
+        }
+
         let mut verifier = noc.verify_chain_start(crypto, time);
 
         if fabric.fabric_id() != noc.get_fabric_id()? {
